@@ -533,10 +533,19 @@ def s2_times_in_chunks(ctx):
     hay = unparse(q.arg(c, 0, 'a')) if dotted(c.func) else unparse(c.func.value)
     needle = q.arg(c, 1 if dotted(c.func) else 0, 'v')
     side = q.arg(c, 2 if dotted(c.func) else 1, 'side')
-    ctx.check(hay == kp and needle is not None and unparse(needle) == tp, 'C17.S2', fi, c, 'the times are located among the kept bounds',
-              'searchsorted(%s, %s) does not locate the times among the kept bounds' % (hay, unparse(needle) if needle is not None else '?'))
-    ctx.check(const_value(side) == 'right', 'C17.S2', fi, c, "side='right': a spike exactly on the first bound of a kept chunk is inside, on its end bound outside",
-              "searchsorted side is %r: spikes exactly on chunk bounds are assigned to the wrong side" % (const_value(side) if side is not None else 'left'))
+    def _arr(x_):
+        x_ = fi.expand(x_) if x_ is not None else None
+        while isinstance(x_, ast.Call) and dotted(x_.func) in ('np.asarray', 'np.array', 'np.atleast_1d', 'np.ravel') and x_.args:
+            x_ = x_.args[0]
+        return unparse(x_) if x_ is not None else None
+    hay_n = q.arg(c, 0, 'a') if dotted(c.func) else c.func.value
+    ctx.tri(_arr(hay_n) == kp and _arr(needle) == tp, _arr(hay_n) == tp or (_arr(hay_n) == kp and _arr(needle) == kp), 'C17.S2', fi, c, 'the times are located among the kept bounds',
+            'searchsorted(%s, %s) does not locate the times among the kept bounds' % (hay, unparse(needle) if needle is not None else '?'),
+            'the arguments of searchsorted(%s, %s) were not recognised as the kept bounds and the times' % (hay, unparse(needle) if needle is not None else '?'))
+    ctx.tri(const_value(side) == 'right', side is None or isinstance(const_value(side), str), 'C17.S2', fi, c,
+            "side='right': a spike exactly on the first bound of a kept chunk is inside, on its end bound outside",
+            "searchsorted side is %r: spikes exactly on chunk bounds are assigned to the wrong side" % (const_value(side) if side is not None else 'left'),
+            'the side argument of searchsorted is not a literal')
     t = unparse(e).replace(' ', '')
     s = unparse(c).replace(' ', '')
     par = t.replace(s, 'IND')
